@@ -402,6 +402,7 @@ def air_case(pack, addr, case, seed):
     H.set_frame_id(fid0)
     hdr = H.RF24NetworkHeader(dst, typ)
     res0 = hdr.reserved
+    hid0 = hdr.frame_id & 0xFFFF
     shape = len_shape(n)
     viol = []
 
@@ -457,6 +458,9 @@ def air_case(pack, addr, case, seed):
     if len(ids) > 1:
         v("frag-id:%s" % mode, "fragments of one message carry frame ids %r" % sorted(ids))
     fid = min(ids) if ids else fid0
+    if ids and len(ids) == 1 and fid != hid0:
+        # a frame is its header followed by the message: the id on the air is the one the caller's header holds
+        v("air-frame:id-not-the-header's:%s" % mode, "frame id %d on the air, the header passed to %s() holds %d" % (fid, api, hid0))
     exp = NW.encode(src, dst, fid, typ, res0, raw)
     if mode == "sent":
         want = exp
